@@ -59,6 +59,7 @@ TRUSTED = ['oracle models in coq/SF/Codec.v of csv / np.genfromtxt / int() / flo
            'tools/sfv/props/c16.py:generate -- ast extraction of the StoreFilter defaults, STORE_FILTER_DISABLE, delimiter_native, the csv.reader bypass branch and the keyword defaults of to_delimited / from_delimited (fail closed)']
 EXHAUSTIVE = {'quick': False, 'thorough': False}
 TRANSLATED = []
+SHARD_SIZE = 300          # a shard of 400 of these cases needs ~0.6 GB in coqc
 
 _FRAME = 'static_frame/core/frame.py'
 _FILTER = 'static_frame/core/store_filter.py'
@@ -956,10 +957,10 @@ def oracle_cases(ctx):
     for i, c in enumerate(out):
         c.cid = i
     try:
-        fail_m, _ = core.eval_cases(ID + '_oracle', IMPORTS, out)
+        fail_m, _ = core.eval_cases(ID + '_oracle', IMPORTS, out, shard_size=SHARD_SIZE)
     except core.MachineryError:
         # a coqc killed by the kernel's OOM killer on a loaded machine: try once more before giving up
-        fail_m, _ = core.eval_cases(ID + '_oracle', IMPORTS, out)
+        fail_m, _ = core.eval_cases(ID + '_oracle', IMPORTS, out, shard_size=SHARD_SIZE)
     if fail_m:
         bad = [c for c in out if c.cid in fail_m][:5]
         raise core.MachineryError('oracle model disagrees with csv / NumPy / Python (machinery failure, not a property violation): ' +
